@@ -7,7 +7,13 @@ namespace Goflow.Format
 
 def str (s : String) : Bytes := s.toUTF8.toList
 
-def decimal (n : Nat) : Bytes := str (toString n)
+/-- decimal digits, most significant first (`fuel` bounds the recursion; `n < 10 ^ fuel` suffices) -/
+def digitsOf : Nat → Nat → Bytes
+  | 0, _ => []
+  | fuel + 1, n => if n < 10 then [UInt8.ofNat (48 + n)] else digitsOf fuel (n / 10) ++ [UInt8.ofNat (48 + n % 10)]
+
+/-- strconv / fmt `%d` of an unsigned number -/
+def decimal (n : Nat) : Bytes := digitsOf (n + 1) n
 
 def hexLower (bs : Bytes) : Bytes :=
   bs.flatMap fun b => [UInt8.ofNat (hexDigit (b.toNat / 16)).toNat, UInt8.ofNat (hexDigit (b.toNat % 16)).toNat]
